@@ -280,6 +280,14 @@ def run(ctx):
                     c[3], lambda x: kind(x) == 'attr' and
                     x[2] == 'knownInterfaces'):
                 known = pol
+            # knownInterfaces.get(name) is not None / truthy
+            g = c[2] if kind(c) == 'cmp' and c[3] == NONE and \
+                c[1] in ('is', 'is not') else c
+            if kind(g) == 'call' and kind(g[2]) == 'attr' and \
+                    g[2][2] == 'get' and contains(
+                        g[2][1], lambda x: kind(x) == 'attr' and
+                        x[2] == 'knownInterfaces'):
+                known = pol if g is c else ((c[1] == 'is not') == pol)
             if c == ('attr', selft, 'skipKnown'):
                 skipk = pol
         reused = any(e[0] == 'setattr' and e[2] == 'skip' and
